@@ -37,7 +37,8 @@ FLOORS = {'numeric_spelling_cases': 600, 'text_spelling_cases': 100,
           'arithmetic_cases': 400, 'name_lookup_cases': 100,
           'user_function_cases': 10, 'numpy_spellings': 100,
           'formula_cases': 120, 'keyword_spelling_cases': 300,
-          'empty_text_cases': 20, 'host_decimal_context_cases': 100}
+          'empty_text_cases': 20, 'numeric_by_meaning_cases': 100,
+          'scientific_text_cases': 150, 'host_decimal_context_cases': 100}
 ANCHOR_FUNCS = {
     'xlcalculator/xlfunctions/xl.py': ['validate_args.<locals>.validate',
                                        '_validate', 'register',
@@ -108,6 +109,11 @@ def run(ctx):
         out.append(('text-decimal', dec))
         out.append(('Text-decimal', T.Text(dec)))
         out.append(('text-scientific', '%.10e' % v))
+        # ... as Excel itself writes it: upper-case E
+        out.append(('text-scientific-E', '%.10E' % v))
+        out.append(('Text-scientific-E', T.Text('%.10E' % v)))
+        if whole:
+            out.append(('text-whole-decimal', '%d.0' % v))
         if v == 1:
             out += [('TRUE', True), ('Boolean-TRUE', T.Boolean(True))]
         if v == 0:
@@ -416,6 +422,105 @@ def run(ctx):
                            {'formula': text, 'A1': repr(holder),
                             'observed': got},
                            group=f'empty-text:{text}')
+
+    # ---- A2. whole-number parameters that are numeric by the function's meaning
+    # although their annotation says "anything" (the number of DEC2BIN/OCT/HEX,
+    # the places of every base conversion): every spelling of the whole number
+    # gives what the int gives ------------------------------------------------
+    by_meaning = [('DEC2BIN', (12,), 0), ('DEC2OCT', (58,), 0),
+                  ('DEC2HEX', (255,), 0), ('DEC2BIN', (5, 8), 1),
+                  ('DEC2OCT', (58, 6), 1), ('DEC2HEX', (255, 4), 1),
+                  ('BIN2OCT', ('1100', 6), 1), ('BIN2HEX', ('1100', 4), 1),
+                  ('OCT2BIN', ('7', 6), 1), ('OCT2HEX', ('72', 5), 1),
+                  ('HEX2BIN', ('F', 8), 1), ('HEX2OCT', ('F', 3), 1)]
+    for fname, ex_, pos in by_meaning:
+        if fname not in F or not mine():
+            continue
+        v = ex_[pos]
+        canonical = monitors.call_outcome(F[fname], *ex_)
+        if canonical[0] != 'value' or canonical[1][0] == 'err':
+            continue
+        forms = [('float', float(v)), ('numpy.int64', numpy.int64(v)),
+                 ('numpy.float64', numpy.float64(v)),
+                 ('Number-int', T.Number(v)), ('Number-float',
+                                               T.Number(float(v))),
+                 ('text-decimal', str(v)), ('Text-decimal', T.Text(str(v))),
+                 ('text-whole-decimal', '%d.0' % v),
+                 ('Text-whole-decimal', T.Text('%d.0' % v)),
+                 ('text-scientific', '%.3e' % v),
+                 ('text-scientific-E', '%.3E' % v),
+                 ('Text-scientific-E', T.Text('%.3E' % v))]
+        for sname, sval in forms:
+            args = list(ex_)
+            args[pos] = sval
+            got = monitors.call_outcome(F[fname], *args)
+            ctx.event('numeric_spelling_cases')
+            ctx.event('numeric_by_meaning_cases')
+            ctx.case((fname, pos, 'by-meaning', sname))
+            if not same(got, canonical):
+                report(f'{fname}: whole-number position {pos} spelt as '
+                       f'{sname} ({sval!r}) -> {got}, the int spelling gives '
+                       f'{canonical}',
+                       {'function': fname, 'position': pos, 'spelling': sname,
+                        'value': repr(sval), 'observed': got,
+                        'canonical': canonical},
+                       group=f'by-meaning:{sname}:{got[0]}:{fname}')
+        # ... and through a formula: the argument in a cell (number, text)
+        for sname, sval in (('cell-number', float(v)), ('cell-text', str(v)),
+                            ('cell-text-decimal', '%d.0' % v),
+                            ('cell-text-scientific', '%.3E' % v)):
+            parts = ['A1' if i == pos else subject.lit(a)
+                     for i, a in enumerate(ex_)]
+            text = f'={fname}(' + ','.join(parts) + ')'
+            got = subject.eval_one(text, {'A1': sval})
+            ctx.event('numeric_by_meaning_cases')
+            ctx.case((fname, pos, 'by-meaning', sname))
+            if not same(got, canonical):
+                report(f'{text} with A1 = {sval!r} -> {got}, the int '
+                       f'argument gives {canonical}',
+                       {'formula': text, 'A1': repr(sval), 'observed': got,
+                        'canonical': canonical},
+                       group=f'by-meaning:{sname}:{got[0]}:{fname}')
+
+    # ---- A3. numbers in scientific notation, as text and as literals: upper- and
+    # lower-case exponent, fractions and negatives ---------------------------
+    if sh in (2, 3):
+        sci = ['2.5E0', '1E-3', '-1.25E1', '1.5E+3', '2.5e0', '1e-3',
+               '-1.25e1', '1E3', '7.25E-2', '-4E-1', '6.02E+23', '1.0E+0',
+               '9.99E2', '-3.5E-5']
+        for t in sci:
+            want = float(t)
+            calls = [('OP_ADD', (t, 0), want), ('OP_MUL', (T.Text(t), 1),
+                                                 want),
+                     ('ABS', (t,), abs(want)), ('OP_SUB', (0, T.Text(t)),
+                                               -want),
+                     ('SUM', (T.Text(t), 0), None)]
+            for fname, args, w in calls:
+                if w is None:
+                    continue
+                got = monitors.call_outcome(F[fname], *args)
+                ctx.event('scientific_text_cases')
+                ctx.case(('scientific', fname, t))
+                if not same(got, ('value', ('num', w))):
+                    report(f'{fname}{args!r} -> {got}, the text denotes '
+                           f'{want!r}', {'function': fname,
+                                         'args': [repr(a) for a in args],
+                                         'observed': got, 'canonical': w},
+                           group=f'scientific:{fname}:{got[0]}')
+            lit_ = t if not t.startswith('-') else t      # a literal in a formula
+            for text, inputs, w in (
+                    (f'={lit_}+1', {}, want + 1),
+                    (f'=A1+1', {'A1': t}, want + 1),
+                    (f'=ABS(A1)', {'A1': t}, abs(want)),
+                    (f'=1*"{t}"', {}, want)):
+                got = subject.eval_one(text, inputs)
+                ctx.event('scientific_text_cases')
+                ctx.case(('scientific', text, t))
+                if not same(got, ('value', ('num', w))):
+                    report(f'{text} with {inputs} -> {got}, expected {w!r}',
+                           {'formula': text, 'inputs': inputs,
+                            'observed': got, 'canonical': w},
+                           group=f'scientific:formula:{got[0]}')
 
     # ---- C4. numeric text is read the same whatever decimal context the calling
     # application has set for its own arithmetic -------------------------------
